@@ -30,13 +30,71 @@ theorem unified_range_bounded (h0 : Hunk) (l : Bytes) (h : (parseUnifiedRange h0
   obtain ⟨a, b, c, d⟩ := Bounds.parseUnifiedRange_small h0 l h
   exact ⟨a.1, a.2, b.1, b.2, c.1, c.2, d.1, d.2⟩
 
-/-- a normal range line that parses: starts within [0, cap], counts (computed as end - start + 1) within [-cap, cap + 1] -/
+/-- a normal range line that parses: starts within [0, cap], counts within [0, cap + 1].
+    (Strengthened with the model — `parse_normal_range` as fixed: the new count, computed as `max (end - start + 1) 0`, was only
+    known to be within [-cap - 1, cap + 1]: `-cap - 1 ≤ r.new.count` is now `0 ≤ r.new.count`.) -/
 theorem normal_range_bounded (h0 : Hunk) (l : Bytes) (h : (parseNormalRange h0 l).1 = true) :
     let r := (parseNormalRange h0 l).2
     0 ≤ r.old.start ∧ r.old.start ≤ cap ∧ 0 ≤ r.old.count ∧ r.old.count ≤ cap + 1 ∧
-    0 ≤ r.new.start ∧ r.new.start ≤ cap ∧ -cap - 1 ≤ r.new.count ∧ r.new.count ≤ cap + 1 := by
+    0 ≤ r.new.start ∧ r.new.start ≤ cap ∧ 0 ≤ r.new.count ∧ r.new.count ≤ cap + 1 := by
   obtain ⟨a, b, c, d, e, f⟩ := Bounds.parseNormalRange_bounds h0 l h
   exact ⟨a.1, a.2, b, c, d.1, d.2, e, f⟩
+
+/-- **no count of a normal hunk is negative**: a range that ends before it starts is empty (old side: refused) -/
+theorem normal_counts_bounded_below (h : Hunk) (line : Bytes) (h' : Hunk) (hp : parseNormalRange h line = (true, h')) :
+    0 ≤ h'.old.count ∧ 0 ≤ h'.new.count := by
+  have := normal_range_bounded h line (by rw [hp])
+  rw [hp] at this
+  exact ⟨this.2.2.1, this.2.2.2.2.2.2.1⟩
+
+/-- the form in which the bound is needed for a `d` command (whose count is the number of lines of its range less one):
+    never below -1 … -/
+theorem normal_new_count_nonneg (h : Hunk) (line : Bytes) (h' : Hunk) (hp : parseNormalRange h line = (true, h')) :
+    -1 ≤ h'.new.count := by
+  have := (normal_counts_bounded_below h line h' hp).2
+  omega
+
+/-- … and in fact **a `d` command adds nothing**: the command letter of an accepted line (the first byte that is neither a
+    digit nor a comma) is `c`, `a` or `d`, and for `d` the new range has no lines at all — a comma after the new start is
+    refused, so the range is `n` alone and its count `1 - 1` -/
+theorem normal_delete_adds_nothing (h : Hunk) (line : Bytes) (h' : Hunk) (hp : parseNormalRange h line = (true, h')) :
+    (Bounds.normalCmdOf line = 99 ∨ Bounds.normalCmdOf line = 97 ∨ Bounds.normalCmdOf line = 100) ∧
+    (Bounds.normalCmdOf line = 100 → h'.new.count = 0) := by
+  have := Bounds.parseNormalRange_cmd h line (by rw [hp])
+  rw [hp] at this
+  exact this
+
+/-- the new counts of any number of accepted range lines add up to something between 0 and `n * (cap + 1)`.  What a fuzzer
+    found — six commands `Kd2305843009213693951,0`, each with a new count of -2^61, adding up to less than -2^63 — can not
+    happen: no sum of new counts goes below zero, and one above 2^63 - 1 takes more than three range lines whose hunks
+    each carry `cap + 1` lines of text -/
+theorem normal_new_counts_sum (h0 : Hunk) (lines : List Bytes) (hok : ∀ l ∈ lines, (parseNormalRange h0 l).1 = true) :
+    0 ≤ (lines.map fun l => (parseNormalRange h0 l).2.new.count).sum ∧
+    (lines.map fun l => (parseNormalRange h0 l).2.new.count).sum ≤ lines.length * (cap + 1) := by
+  induction lines with
+  | nil => simp
+  | cons l ls ih =>
+    have h1 := normal_range_bounded h0 l (hok l List.mem_cons_self)
+    have h2 := ih (fun x hx => hok x (List.mem_cons_of_mem _ hx))
+    simp only [List.map_cons, List.sum_cons, List.length_cons] at h2 ⊢
+    simp only at h1
+    refine ⟨by omega, ?_⟩
+    have e : ((ls.length + 1 : Nat) : Int) * (cap + 1) = (ls.length : Int) * (cap + 1) + (cap + 1) := by
+      rw [Int.natCast_add, Int.add_mul]; simp
+    rw [e]; omega
+
+/-- the fuzzer's line is refused (`1d2305843009213693951,0`), and the same range after `c` is empty
+    (`1c2305843009213693951,0`; before the fix: a count of -2305843009213693950) -/
+example : (parseNormalRange defaultHunk
+    [49, 100, 50, 51, 48, 53, 56, 52, 51, 48, 48, 57, 50, 49, 51, 54, 57, 51, 57, 53, 49, 44, 48]).1 = false := by decide
+example : (parseNormalRange defaultHunk
+    [49, 99, 50, 51, 48, 53, 56, 52, 51, 48, 48, 57, 50, 49, 51, 54, 57, 51, 57, 53, 49, 44, 48]) =
+      (true, ⟨⟨1, 1⟩, ⟨2305843009213693951, 0⟩, []⟩) := by decide
+/-- a plain `d` command: the new range is a position, not a line -/
+example : (parseNormalRange defaultHunk [53, 44, 55, 100, 51]) = (true, ⟨⟨5, 3⟩, ⟨3, 0⟩, []⟩) := by decide
+#guard (parseNormalRange defaultHunk (str "1d2305843009213693951,0")).1 == false
+#guard (parseNormalRange defaultHunk (str "1c2305843009213693951,0")).2.new.count == 0
+#guard Bounds.normalCmdOf (str "5,7d3") == 100
 
 /-- a context range that parses: both numbers within [0, cap] -/
 theorem context_range_bounded (s e : Int) (t : Bytes) (h : (parseContextRange s e t).1 = true) :
@@ -115,6 +173,10 @@ end PatchModel.C07
 #print axioms PatchModel.C07.consumeLineNumber_bounded
 #print axioms PatchModel.C07.unified_range_bounded
 #print axioms PatchModel.C07.normal_range_bounded
+#print axioms PatchModel.C07.normal_counts_bounded_below
+#print axioms PatchModel.C07.normal_new_count_nonneg
+#print axioms PatchModel.C07.normal_delete_adds_nothing
+#print axioms PatchModel.C07.normal_new_counts_sum
 #print axioms PatchModel.C07.context_range_bounded
 #print axioms PatchModel.C07.guess_in_range
 #print axioms PatchModel.C07.locate_in_file
